@@ -9,6 +9,7 @@ CONSTANTS
   RNG = "local"
   AddrBytes = "fill"
   NetBase = "masked"
+  DerivedMode = "once"
 VIEW view
-INVARIANTS TypeOK Contained WellFormed RandPortFromSubnet Pure UnknownGenerationFails NoSpuriousError ZeroWeightNeverChosen NoWeightFails
+INVARIANTS TypeOK DerivedSound Contained WellFormed RandPortFromSubnet Pure UnknownGenerationFails NoSpuriousError ZeroWeightNeverChosen NoWeightFails
 CHECK_DEADLOCK FALSE
